@@ -17,6 +17,7 @@ import (
 
 	"github.com/awslabs/operatorpkg/object"
 	corev1 "k8s.io/api/core/v1"
+	"k8s.io/apimachinery/pkg/api/equality"
 	apierrors "k8s.io/apimachinery/pkg/api/errors"
 	"k8s.io/apimachinery/pkg/api/resource"
 	metav1 "k8s.io/apimachinery/pkg/apis/meta/v1"
@@ -35,8 +36,8 @@ import (
 	nphash "sigs.k8s.io/karpenter/pkg/controllers/nodepool/hash"
 	provscheduling "sigs.k8s.io/karpenter/pkg/controllers/provisioning/scheduling"
 	"sigs.k8s.io/karpenter/pkg/events"
-	"sigs.k8s.io/karpenter/pkg/state/nodepoolhealth"
 	"sigs.k8s.io/karpenter/pkg/scheduling"
+	"sigs.k8s.io/karpenter/pkg/state/nodepoolhealth"
 	"sigs.k8s.io/karpenter/pkg/test"
 
 	"verifharness/kit"
@@ -215,13 +216,14 @@ var poolKeys = []string{k1, k1, k2, corev1.LabelTopologyZone, v1.CapacityTypeLab
 
 // ---------------------------------------------------------------- environment of one case
 type sysEnv struct {
-	ctx  context.Context
-	kube client.Client
-	clk  *clock.FakeClock
-	cp   *provider
-	np   *v1.NodePool
-	t0   time.Time
-	ctrl *ncdisruption.Controller
+	ctx      context.Context
+	kube     client.Client
+	clk      *clock.FakeClock
+	cp       *provider
+	np       *v1.NodePool
+	t0       time.Time
+	ctrl     *ncdisruption.Controller
+	hashCtrl *nphash.Controller // long-lived: whatever it keeps in memory survives pool edits, deletion and re-creation
 	// API faults (all switchable): status patch of NodeClaims, patch of NodeClaims / NodePools, list of NodeClaims
 	failClaimStatusPatch error
 	failClaimStatusOnce  bool
@@ -299,7 +301,9 @@ type hashCtlJSON struct {
 
 // runHashController reconciles the pool through the real hash controller and records the step as its own case.
 // fault: "" | "list" | "claim-patch" | "pool-patch"; foreign = claims of another pool (must stay untouched)
-func (e *sysEnv) runHashController(c *kit.Ctx, claimNames []string) { e.runHashControllerF(c, claimNames, nil, "") }
+func (e *sysEnv) runHashController(c *kit.Ctx, claimNames []string) {
+	e.runHashControllerF(c, claimNames, nil, "")
+}
 
 func (e *sysEnv) runHashControllerF(c *kit.Ctx, claimNames, foreign []string, fault string) {
 	np := &v1.NodePool{ObjectMeta: metav1.ObjectMeta{Name: e.np.Name}}
@@ -335,7 +339,10 @@ func (e *sysEnv) runHashControllerF(c *kit.Ctx, claimNames, foreign []string, fa
 			managed = true
 		}
 	}
-	_, err := nphash.NewController(e.kube, e.cp).Reconcile(e.ctx, np)
+	if e.hashCtrl == nil {
+		e.hashCtrl = nphash.NewController(e.kube, e.cp)
+	}
+	_, err := e.hashCtrl.Reconcile(e.ctx, np)
 	e.failClaimList, e.failClaimPatch, e.failPoolPatch = nil, nil, nil
 	if err != nil && fault == "" {
 		panic(err)
@@ -434,6 +441,7 @@ type sysPlan struct {
 	unmanaged  bool // nodeClassRef of a kind the provider does not support
 	overlay    bool // the catalogue carries price / capacity overlays
 	defaultTGP bool // provscheduling.DefaultTerminationGracePeriod is set
+	recreate   bool // the pool is deleted and re-created under the same name before the claim is built
 	preEdits   int
 	tmplLabels map[string]string
 	poolReqs   []kcall
@@ -475,6 +483,7 @@ func runSys(c *kit.Ctx, r *kit.Rand, plan sysPlan) {
 		return
 	}
 	validated := np.RuntimeValidate(e.ctx) == nil
+	np.Generation = 1 // the API server's generation semantics are emulated: 1 on create, +1 on every spec change
 	kit.Apply(e.ctx, e.kube, nodeClass, np)
 	e.np = np
 	// ---- before the claim is built: the hash controller may or may not have stamped the pool, and the template may be
@@ -511,6 +520,7 @@ func runSys(c *kit.Ctx, r *kit.Rand, plan sysPlan) {
 			cur.Spec.Disruption.Budgets = []v1.Budget{{Nodes: fmt.Sprint(2 + i)}}
 			pre = append(pre, "edit-ignored")
 		}
+		cur.Generation++
 		if err := e.kube.Update(e.ctx, cur); err != nil {
 			panic(err)
 		}
@@ -519,6 +529,38 @@ func runSys(c *kit.Ctx, r *kit.Rand, plan sysPlan) {
 			stale = false
 			pre = append(pre, "hashctl")
 		}
+	}
+	if plan.recreate {
+		// delete-and-apply: the pool is deleted and created again under the SAME name with a different drift-relevant
+		// template, a new UID and generation 1 again; the same hash controller instance reconciles the new object
+		old := &v1.NodePool{ObjectMeta: metav1.ObjectMeta{Name: "pool"}}
+		e.get(old)
+		if err := e.kube.Delete(e.ctx, old); err != nil {
+			panic(err)
+		}
+		fresh := &v1.NodePool{ObjectMeta: metav1.ObjectMeta{Name: "pool", UID: types.UID("pool-uid-2"), Generation: old.Generation}}
+		if r.Bool() {
+			fresh.Generation = 1
+		}
+		fresh.Spec = *old.Spec.DeepCopy()
+		switch r.Intn(3) {
+		case 0:
+			fresh.Spec.Template.Annotations = map[string]string{"example.com/recreated": "yes"}
+		case 1:
+			fresh.Spec.Template.Spec.Taints = append(fresh.Spec.Template.Spec.Taints, corev1.Taint{Key: "example.com/recreated", Effect: corev1.TaintEffectNoExecute})
+		case 2:
+			fresh.Spec.Template.Spec.ExpireAfter = v1.MustParseNillableDuration("999h")
+		}
+		kit.Apply(e.ctx, e.kube, fresh)
+		e.np = fresh
+		stale = true
+		pre = append(pre, fmt.Sprintf("recreate-same-name(generation %d->%d)", old.Generation, fresh.Generation))
+		if r.Chance(3, 4) {
+			e.runHashController(c, nil)
+			stale = false
+			pre = append(pre, "hashctl")
+		}
+		c.Count(fmt.Sprintf("build:pool-recreated-under-same-name,same-generation=%v", old.Generation == fresh.Generation))
 	}
 	np = &v1.NodePool{ObjectMeta: metav1.ObjectMeta{Name: "pool"}}
 	e.get(np)
@@ -638,7 +680,11 @@ func runSys(c *kit.Ctx, r *kit.Rand, plan sysPlan) {
 	updatePool := func(f func(np *v1.NodePool)) {
 		pool := &v1.NodePool{ObjectMeta: metav1.ObjectMeta{Name: "pool"}}
 		e.get(pool)
+		before := pool.Spec.DeepCopy()
 		f(pool)
+		if !equality.Semantic.DeepEqual(before, &pool.Spec) {
+			pool.Generation++
+		}
 		if err := e.kube.Update(e.ctx, pool); err != nil {
 			panic(err)
 		}
@@ -1023,7 +1069,9 @@ func runSys(c *kit.Ctx, r *kit.Rand, plan sysPlan) {
 				panic(err)
 			}
 		case "unmanaged-claim":
-			updateClaim(func(nc *v1.NodeClaim) { nc.Spec.NodeClassRef = &v1.NodeClassReference{Group: "other.sh", Kind: "OtherNodeClass", Name: "x"} })
+			updateClaim(func(nc *v1.NodeClaim) {
+				nc.Spec.NodeClassRef = &v1.NodeClassReference{Group: "other.sh", Kind: "OtherNodeClass", Name: "x"}
+			})
 		case "status-patch-conflict":
 			e.failClaimStatusPatch = apierrors.NewConflict(schema.GroupResource{Group: "karpenter.sh", Resource: "nodeclaims"}, "claim", fmt.Errorf("injected conflict"))
 		case "status-patch-error":
@@ -1085,9 +1133,10 @@ func k8sMatch(op string, vals []string, v string, present bool) bool {
 }
 
 // freshShape names the known input shape behind a drifted fresh claim (empty if none applies):
-//   template-label-contradicts-requirement : a template label whose value a requirement on the same key rejects
-//   empty-string-value-label-not-set       : a custom key whose requirements admit only "" (Any() returns "", no label is set)
-//   any-returns-excluded-value             : the resolved custom label is a value the key's NotIn list excludes
+//
+//	template-label-contradicts-requirement : a template label whose value a requirement on the same key rejects
+//	empty-string-value-label-not-set       : a custom key whose requirements admit only "" (Any() returns "", no label is set)
+//	any-returns-excluded-value             : the resolved custom label is a value the key's NotIn list excludes
 func freshShape(plan sysPlan, final map[string]string) string {
 	// every entry of the pool the fresh claim's labels violate must be explained by one of the known shapes;
 	// otherwise the drift is not (only) a known finding and no key is attached
@@ -1152,6 +1201,7 @@ func genPlan(r *kit.Rand, scenario string) sysPlan {
 		p.preEdits = r.Range(1, 2)
 	}
 	p.static, p.unmanaged, p.overlay, p.defaultTGP = r.Chance(1, 8), r.Chance(1, 25), r.Chance(1, 6), r.Chance(1, 8)
+	p.recreate = r.Chance(1, 6)
 	for i, n := 0, r.Intn(3); i < n; i++ {
 		p.tmplLabels[kit.Pick(r, []string{k1, k2, k3, k3})] = kit.Pick(r, customVals)
 	}
